@@ -44,7 +44,7 @@ ASSUMPTIONS = [
 TIMEOUT = {"quick": 500, "thorough": 2800}
 REQUIRED = {"scenarios": 16, "schedule_runs": 60, "rounds_decoded": 300, "explicit_swaps_checked": 150, "exchanges_accepted": 60,
             "exchanges_rejected": 30, "advance_calls_checked": 16, "shutdowns_checked": 60, "chains_compared_across_schedules": 150,
-            "cases:unsorted_ladder": 1, "cases:odd_chain_count": 2, "cases:sharp_target": 2, "pairings:calls": 20000, "scenarios:large_ladder": 2, "cases:single_chain": 1, "returned_rows_rederived": 2000, "run_for_calls_checked": 8}
+            "cases:unsorted_ladder": 1, "cases:odd_chain_count": 2, "cases:sharp_target": 2, "cases:terraced_target": 2, "exchanges_tied": 10, "pairings:calls": 20000, "scenarios:large_ladder": 2, "cases:single_chain": 1, "returned_rows_rederived": 2000, "run_for_calls_checked": 8}
 
 
 def jobs(tier, seed):
@@ -136,10 +136,20 @@ def make_spec(rng, j, k):
     A = rng.normal(size=(d, d))
     # a quarter of the scenarios have a sharply peaked log-density: the exchange exponents then run to 1e3 .. 1e6 (certain or impossible exchanges)
     sharp = float(10.0 ** rng.uniform(-7, -4)) if (j + k) % 4 == 2 else 1.0
+    # another quarter have a log-density with few distinct values (table-top with steps): exact ties between different points
+    # (exchange probability exactly one) and log-densities that are exactly 0.0
+    tkind = "terrace" if (j + k) % 4 == 3 else "gauss"
     return {"n": n, "d": d, "kinds": kinds, "ladder": ladder, "temps": [float(t) for t in temps], "program": prog, "sharp": sharp,
+            "target": tkind, "terrace": [float(rng.uniform(0.8, 2.0)), float(rng.choice([0.5, 1.0]))],
             "mu": (rng.normal(size=d) * 0.5).tolist(), "cov": ((A @ A.T / d + 0.6 * np.eye(d)) * sharp).tolist(),
             "starts": (rng.normal(size=(n, d)) * 1.5).tolist(), "seeds": [int(v) for v in rng.integers(2**31, size=n + 2)],
             "display": bool(rng.random() < 0.3)}
+
+
+def spec_target(spec, delay=None):
+    if spec.get("target") == "terrace":
+        return mc.TerraceTarget(spec["mu"], radius=spec["terrace"][0], step=spec["terrace"][1], delay=delay)
+    return mc.GaussTarget(spec["mu"], spec["cov"], delay=delay)
 
 
 def make_schedule(rng, n, s):
@@ -172,7 +182,7 @@ def build(spec, sch):
         if sch.get("jitter") or sch.get("slow") == i or sch.get("every"):
             plan = mc.SleepPlan(sch.get("seed", 0), i, base=sch.get("base", 0.0) if sch.get("slow") == i else 0.0,
                                 jitter=sch.get("jitter", 0.0), every=sch.get("every", 0), stall=sch.get("stall", 0.0), spin=sch.get("spin", False))
-        tgt = mc.GaussTarget(spec["mu"], spec["cov"], delay=plan)
+        tgt = spec_target(spec, delay=plan)
         T = spec["temps"][i]
         start = np.array(spec["starts"][i], float)
         kind = spec["kinds"][i]
@@ -208,7 +218,7 @@ def execute(spec, sch, rec, monitor, ctx, extra_swaps=0):
     from inference.mcmc import ParallelTempering
 
     out = Outcome()
-    ref_target = mc.GaussTarget(spec["mu"], spec["cov"])
+    ref_target = spec_target(spec)
     temps = spec["temps"]
     n = spec["n"]
     old_aff = None
@@ -419,6 +429,8 @@ def check_swap(rec, out, spec, target, before, after, att0, suc0, pt, seg, ctx):
     for i, j in pairs:
         dlog = (1.0 / temps[i] - 1.0 / temps[j]) * (L[j] - L[i])
         a = (i, j) in acc
+        if L[i] == L[j] and not np.array_equal(last[i], last[j]):
+            rec.count("exchanges_tied")
         if dlog >= 0:
             rec.check(a, "certain-exchange-rejected",
                       lambda: f"pair ({i},{j}) with T = ({temps[i]:.3g}, {temps[j]:.3g}), L = ({L[i]:.4g}, {L[j]:.4g}) has exchange probability 1 but was not exchanged", ctx)
@@ -500,6 +512,9 @@ def run_job(job, rec):
                 "temperatures": [round(t, 3) for t in spec["temps"]], "program": spec["program"], "display": spec["display"]}
         rec.context = sctx
         rec.count("scenarios")
+        if spec["target"] == "terrace":
+            rec.count("cases:terraced_target")
+            sctx["target"] = "terrace"
         if spec["sharp"] != 1.0:
             rec.count("cases:sharp_target")
             sctx["target_scale"] = spec["sharp"]
